@@ -84,7 +84,7 @@ def prefetchPos (pf : String) (n : Nat) : Nat :=
 def sessAnswer (consumer pf ps kind first script : String) : String :=
   match ps.toInt?, parseState first, parseScript script with
   | some pageSize, some fst, some sc =>
-    if !(kind == "q" || kind == "x" || kind == "xs") then "bad-op" else
+    if !(kind == "q" || kind == "x" || kind == "xs" || kind == "xd") then "bad-op" else
     let manualC := consumer == "manual"
     let q : Qry := { ident := 1, prepared := kind != "q", skipMeta := kind == "xs", pageSize := pageSize,
                      pageState := if manualC then fst.getD [] else [], disableAutoPage := manualC }
